@@ -19,7 +19,7 @@ from fractions import Fraction
 sys.path.insert(0, os.path.dirname(os.path.dirname(os.path.abspath(__file__))))
 import ais  # noqa: E402
 
-GEN = ['GenTables.v']
+GEN = ['GenTables.v', 'GenEnums.v']
 RULE = ('a case = (sentence list, chain of 1..5 filters, one order of the chain); sentences are generated payloads of all 27 '
         'message types (random bits at nominal length, crafted positions incl. lat/lon 0.0, 91/181, out-of-range latitudes, '
         'duplicates, position reports of types 1-4, 9, 11, 17, 18, 19, 21, 27 cut before/inside/between/after the coordinates, '
@@ -438,6 +438,25 @@ def tolerance_km(ref, p, true_km):
     return _D('1e-6')
 
 
+def position_report_replay(ref, p):
+    """A type 1 position report carrying exactly position p (when p is on the 1/600000 degree grid of the 27/28-bit fields)
+    through a one-filter chain around ref: -> (text, replay, exception name) if that chain raises."""
+    import random
+    try:
+        bits = payload(random.Random(0), 1, lat=Fraction(p[0]).limit_denominator(10 ** 6), lon=Fraction(p[1]).limit_denominator(10 ** 6))
+        lines = ais.bits_to_sentences(bits)
+        items = decode_stream(lines)
+        if len(items) != 1 or isinstance(items[0], Exception) or position_of(items[0]) != (p[0], p[1]):
+            return None
+        f = ('D', [num(ref[0]), num(ref[1])], 100)
+        r = run_impl([f], lines)
+        if r[0] == 'RAISE' or r[1] == 'end':
+            return None
+        return (f'list(FilterChain([{filter_text(f)}]).filter({src_text(lines)}))', dict(src_json(lines), filters=[list(f)]), r[1])
+    except Exception:
+        return None
+
+
 def check_haversine(rep, ref, p, kind, origin='numeric'):
     """One (reference, position) pair: no exception, result within tolerance of the reference."""
     from pyais.filter import haversine
@@ -446,9 +465,14 @@ def check_haversine(rep, ref, p, kind, origin='numeric'):
     try:
         h = haversine(ref, p)
     except Exception as e:
+        what = (f'haversine({ref!r}, {p!r}) raises {type(e).__name__}: {e} (a DistanceFilter with this reference point '
+                f'raises on a message reporting this position)')
+        chain = position_report_replay(ref, p)
+        if chain:                                             # the same failure through the public API, as the replay
+            what = chain[0] + f' raises {chain[2]}: ' + what
+            replay = chain[1]
         rep.violation({'entry': 'DistanceFilter', 'component': 'haversine', 'kind': f'foreign-exception:{type(e).__name__}'},
-                      f'haversine({ref!r}, {p!r}) raises {type(e).__name__}: {e} (a DistanceFilter with this reference point '
-                      f'raises on a message reporting this position)', replay)
+                      what, replay)
         return None
     true_km = great_circle_km(ref[0], ref[1], p[0], p[1])
     tol = tolerance_km(ref, p, true_km)
